@@ -974,13 +974,35 @@ def unroll_literal_loops(mod: Module, func: ast.AST) -> ast.AST:
     import copy as _copy
     out = _copy.deepcopy(func)
 
-    def literal_seq(e):
+    qual = mod.qualname_of(func)
+    own_cls = qual.split(".")[0] if "." in qual and qual.split(".")[0] in mod.classes else None
+
+    def resolve(e):
         if isinstance(e, ast.Name):
             ds = defs_of(out, e.id)
             if len(ds) == 1:
-                e = ds[0]
-            elif e.id in mod.constants:
-                e = mod.constants[e.id]
+                return ds[0]
+            if e.id in mod.constants:
+                return mod.constants[e.id]
+        if isinstance(e, ast.Attribute) and isinstance(e.value, ast.Name):
+            # a class-level constant: self.X / cls.X / ClassName.X (assigned once in the class body, never stored elsewhere in the module)
+            cname = own_cls if e.value.id in ("self", "cls") else e.value.id
+            cdef = mod.classes.get(cname) if cname else None
+            if cdef is not None:
+                vals = [st.value for st in cdef.body if isinstance(st, (ast.Assign, ast.AnnAssign)) and st.value is not None
+                        and name_id(st.targets[0] if isinstance(st, ast.Assign) else st.target) == e.attr]
+                stores = [n for n in ast.walk(mod.tree) if isinstance(n, ast.Attribute) and n.attr == e.attr and isinstance(n.ctx, ast.Store)]
+                if len(vals) == 1 and not stores:
+                    return vals[0]
+        return e
+
+    def literal_seq(e):
+        e = resolve(e)
+        if isinstance(e, ast.Call) and isinstance(e.func, ast.Attribute) and e.func.attr == "items" and not e.args and not e.keywords:
+            d = resolve(e.func.value)
+            if isinstance(d, ast.Dict) and d.keys and len(d.keys) <= 12 and all(k is not None for k in d.keys):
+                return [ast.Tuple(elts=[k, v], ctx=ast.Load()) for k, v in zip(d.keys, d.values)]
+            return None
         if isinstance(e, (ast.Tuple, ast.List)) and e.elts and len(e.elts) <= 12:
             return list(e.elts)
         return None
